@@ -9,6 +9,7 @@ for every exceptional path -- whatever helpers, context managers or loops the co
 from .. import effects
 from ..absint import NONE, State
 from ..astutil import FUNC_TYPES
+from ..objects import ObjectDomain
 from ..loader import AnalysisError
 from .common import REAL
 
@@ -24,7 +25,7 @@ def initial_state(open_test=True):
                   ("self._test_tags", ("tuple", L_NEW, L_GONE)), ("ev.calls", ())])
 
 
-class TfrDomain(effects.EffectDomain):
+class TfrDomain(ObjectDomain):
     """EffectDomain plus a table of truth values for the symbolic tag sets (is this buffer half empty?)."""
 
     truths = {}
@@ -39,8 +40,13 @@ def run_method(ctx, name, argv, st=None, may_raise=True, truths=None):
     classes = ctx.classes
     tfr = classes.get(REAL, TFR)
     owner, f = classes.resolve_method(tfr, name)
+    made = None
     if not isinstance(f, FUNC_TYPES) or owner is None or owner.external:
-        raise AnalysisError(f"anchor vanished: {TFR}.{name}")
+        # not a def: a method made in the class body (name = factory(...)) -- the class-body expression is evaluated and what it gives is called on self
+        made = ObjectDomain(classes)._class_attr_expr(tfr, name)
+        if made is None:
+            raise AnalysisError(f"anchor vanished: {TFR}.{name}")
+        f = made[1]
 
     def oracle(n, pos, kw):
         if n.startswith("t."):
@@ -56,7 +62,26 @@ def run_method(ctx, name, argv, st=None, may_raise=True, truths=None):
     dom = TfrDomain(classes, attrs={"self.semaphore": ("wobj", "sem"), "self.result": ("wobj", "t"), "self._tags": ("wobj", "own"), "self": ("self",)},
                     results={"self._now": [NOW]}, oracle=oracle, log_reads=DATA_ATTRS, log_cap=24, ctors={"_merge_tags"})
     dom.truths = dict(truths or {})
-    return f, effects.run(ctx, dom, f, tfr, argv, state=st if st is not None else initial_state(), depth=7)
+    if made is None:
+        return f, effects.run(ctx, dom, f, tfr, argv, state=st if st is not None else initial_state(), depth=7)
+    import ast
+    from ..absint import Frame, Interp, Result, dedupe, unbox_deep, without_heap
+    dom.root_class = tfr
+    it = Interp(dom, max_depth=8)
+    it.round_cache = {}
+    holder = ast.parse("def _calling_the_method():\n    pass").body[0]
+    holder._module, holder._parent, holder._class = tfr.node._module, tfr.node._module.tree, None
+    fr = Frame(holder, 0, tfr, name=f"<{TFR}.{name}>", is_method=False)
+    out = []
+    for r in dom._eval_class_expr(it, made[0], made[1], st if st is not None else initial_state(), fr):
+        if r.kind == "exc":
+            out.append(r)
+            continue
+        out.extend(dom.apply(it, r.value, [("self",)] + list(argv.values()), [], r.state, fr))
+    ctx.stats["states"] += it.steps
+    for fn_ in it.functions:
+        ctx.analysed(fn_)
+    return f, dedupe([Result(r.kind, unbox_deep(r.value, r.state), without_heap(r.state)) for r in out])
 
 
 def lock_problems(log):
